@@ -20,6 +20,12 @@
 //!    thread, value sets that are permutations / one-ulp neighbours of one another, failing calls directly followed by valid ones,
 //!    and the A-B-A discipline in `exec` (after case B the previous case A is run again and must answer as before).
 //!  * every lane length 1..300 in trailing and inner position; ranks 7 and 8.
+//!
+//! VALUE CASES (seventh token `val`, `gen_val`): the array is written out in the case line and the Lean driver answers the VALUES with
+//! the kernel definitions of `ArrModel/C08Kernels.lean` (the 1-D arms, about which `Props/C08.lean` proves the fold / running-total /
+//! extreme / first-position / NaN statements); the crate's answer is compared with that text (`0.0` / `-0.0` are one value there) and
+//! the native value oracle - which alone judges float and giant cases - is compared with the kernel model on every output value of
+//! these cases (`kernel_vs_native`, counted in the refstats line).
 use arrharness::*;
 use std::cell::{Cell, RefCell};
 use std::cmp::Ordering;
@@ -384,7 +390,127 @@ fn gen(tier: &str, seed: u64, out: &mut dyn FnMut(String)) {
         let kd = if COUNT.contains(&op) { *rng.pick(&kd_all) } else { "none" };
         out(format!("{op} {dt} {} {ax} {kd} {}", tag(&s), rng.next() % 30000));
     }
+    gen_val(thorough, &mut rng, out);
     gen_part2(thorough, &mut rng, out);
+}
+
+
+// ---------------------------------------------------------------- gen, value cases (kernel model)
+
+/// element types of the value cases: the integer types run against `Elem.int` of the kernel model, `f64` / `f32` against `Elem.nanInt`
+const VAL_INT: [(&str, i128, i128); 10] = [("i64", i64::MIN as i128, i64::MAX as i128), ("i32", i32::MIN as i128, i32::MAX as i128), ("i16", i16::MIN as i128, i16::MAX as i128),
+    ("i8", i8::MIN as i128, i8::MAX as i128), ("u64", 0, u64::MAX as i128), ("usize", 0, usize::MAX as i128), ("isize", isize::MIN as i128, isize::MAX as i128),
+    ("u8", 0, u8::MAX as i128), ("u16", 0, u16::MAX as i128), ("u32", 0, u32::MAX as i128)];
+/// integer values (no lane sum / product leaves the type: the budgets of `vals_int`), or - float types - small integers (every float
+/// sum / product of them is exact, also in f32) with NaN nowhere / first / last / at random / everywhere / almost everywhere
+fn val_elems(dt: &str, n: usize, vseed: u64, op: &str) -> Vec<Option<i128>> {
+    if let Some(&(_, lo, hi)) = VAL_INT.iter().find(|t| t.0 == dt) {
+        if dt == "i64" && vseed % 2 == 0 { return vals_i64(n, vseed, op.contains("prod")).into_iter().map(|x| Some(x as i128)).collect(); }
+        return vals_int(n, vseed, op, lo, hi).into_iter().map(Some).collect();
+    }
+    let base = vals_i64(n, vseed / 6, op.contains("prod"));
+    let mut r = Rng::new(vseed ^ 0xAA4);
+    let mode = vseed % 6;
+    let mut v: Vec<Option<i128>> = base.into_iter().map(|x| match mode { 3 if r.below(4) == 0 => None, 4 => None, 5 if r.below(3) != 0 => None, _ => Some(x as i128) }).collect();
+    if n > 0 { if mode == 1 { v[0] = None; } if mode == 2 { v[n - 1] = None; } }
+    v
+}
+fn val_line(op: &str, dt: &str, shape: &[usize], ax: &str, kd: &str, vseed: u64, elems: &[Option<i128>]) -> String {
+    let es = if elems.is_empty() { "-".to_string() } else { elems.iter().map(|x| x.map_or("n".to_string(), |i| i.to_string())).collect::<Vec<_>>().join(",") };
+    format!("{op} {dt} {}:{es} {ax} {kd} {vseed} val", show_list(shape))
+}
+/// VALUE CASES: the array is written out, the kernel model (`ArrModel/C08Kernels.lean`: the 1-D arms, proved in `Props/C08.lean`)
+/// answers the VALUES, the crate's answer is compared with them directly, and the native value oracle is compared with the kernel
+/// model on the same cases (`kernel_vs_native`).
+fn gen_val(thorough: bool, rng: &mut Rng, out: &mut dyn FnMut(String)) {
+    let ops: Vec<&str> = REDUCE.iter().chain(COUNT.iter()).chain(SCAN.iter()).copied().collect();
+    let kd_all = ["none", "true", "false"];
+    let val_dts: Vec<&str> = VAL_INT.iter().map(|t| t.0).chain(["f64", "f32"]).collect();
+    let emit = |op: &str, dt: &str, s: &[usize], ax: &str, kd: &str, vseed: u64, out: &mut dyn FnMut(String)| {
+        if !applicable(op, dt) { return; }
+        let n: usize = s.iter().product();
+        out(val_line(op, dt, s, ax, kd, vseed, &val_elems(dt, n, vseed, op)));
+    };
+    // (a) every lane of length 0..3 over {NaN, -1, 0, 2} (f64) / {-1, 0, 2} (i64): every arm of every kernel, flattened and along axis 0
+    for (dt, alphabet) in [("f64", vec![None, Some(-1i128), Some(0), Some(2)]), ("i64", vec![Some(-1i128), Some(0), Some(2)])] {
+        for len in 0..=3usize { for code in boxes(&vec![alphabet.len(); len]) {
+            let elems: Vec<Option<i128>> = code.iter().map(|&k| alphabet[k]).collect();
+            for op in &ops { for (ax, kd) in [("none", "none"), ("0", if COUNT.contains(op) { "true" } else { "none" })] {
+                out(val_line(op, dt, &[len], ax, kd, 0, &elems));
+            } }
+        } }
+    }
+    // (b) every shape of rank <= 3 (lengths <= 3) and rank 4 (lengths <= 2) x every axis spelling x every operation x keepdims,
+    //     on i64 and f64 (NaN placement rotates with the seed) and on one further element type
+    let mut small = shapes(1, 3, 1, 3);
+    small.extend(shapes(4, 4, 1, 2));
+    if thorough { small.extend(shapes(4, 4, 3, 3)); small.extend([vec![2, 3, 2, 3], vec![3, 1, 3, 2], vec![2, 2, 2, 2, 2], vec![1, 2, 1, 3, 2]]); }
+    let mut k = 0usize;
+    for s in &small { for op in &ops { for ax in &axes_of(s.len() as isize) {
+        let kds: Vec<&str> = if COUNT.contains(op) { kd_all.to_vec() } else { vec!["none"] };
+        for kd in kds {
+            k += 1;
+            let reps = if thorough { 3 } else { 1 };
+            for _ in 0..reps {
+                emit(op, "i64", s, ax, kd, rng.next() % 3000, out);
+                emit(op, "f64", s, ax, kd, rng.next() % 3000, out);
+            }
+            if s.len() <= 2 || thorough || k % 4 == 0 { emit(op, val_dts[k % val_dts.len()], s, ax, kd, rng.next() % 3000, out); }
+        }
+    } } }
+    // (c) zero-length axes: every operation x every axis (both spellings, none, out of range) x keepdims - the complete answer of
+    //     the model (error / empty array / the value of the empty lane: `nanmax` of an empty integer lane is 0, of a float lane NaN)
+    for s in &zero_shapes() {
+        let nd = s.len() as isize;
+        let mut axes = axes_of(nd); axes.push(nd.to_string()); axes.push((-nd - 1).to_string());
+        for op in &ops { for ax in &axes { for dt in ["i64", "f64", "u8"] {
+            let kds: Vec<&str> = if COUNT.contains(op) { kd_all.to_vec() } else { vec!["none"] };
+            for kd in kds { emit(op, dt, s, ax, kd, rng.next() % 60, out); }
+        } } }
+    }
+    // (d) sizes: big_shapes (axis lengths 7..17 in every position, > 256 / 1024 / 4096 elements), operations / axes / types rotating
+    let mut j = 0usize;
+    for s in &big_shapes() {
+        let n: usize = s.iter().product();
+        let nd = s.len() as isize;
+        let axes: Vec<String> = if n > 2000 { vec!["none".to_string(), (nd - 1).to_string(), "none".to_string(), (-nd).to_string()] } else { axes_of(nd) };
+        let per = if n > 2000 { if thorough { 6 } else { 2 } } else if thorough { 12 } else { 6 };
+        for t in 0..per {
+            j += 1;
+            let op = ops[(j * 5 + t) % ops.len()];
+            // (the crate's sort-based 1-D argmax / argmin and the model's quick sort are quadratic on repeated values)
+            let op = if n > 2000 && (op == "argmax" || op == "argmin") && t % 2 == 0 { "count_nonzero" } else { op };
+            let ax = &axes[(j + t) % axes.len()];
+            let kd = if COUNT.contains(&op) { if ax == "none" && nd > 3 { "false" } else { kd_all[j % 3] } } else { "none" };
+            let cands: Vec<&str> = val_dts.iter().copied().filter(|d| applicable(op, d)).collect();
+            emit(op, cands[(j * 3 + t) % cands.len()], s, ax, kd, rng.next() % 30000, out);
+        }
+    }
+    //     lanes of 4100 elements with many repeated extremes (the list-backed model of apply_along_axis is quadratic in the element
+    //     count - 0.4 s at 4100, 1.2 s at 8200 elements -, the kernels are not: mostly the flattened form)
+    for (i, op) in ["argmax", "argmin", "max", "nanmin", "count_nonzero", "cumsum", "nanprod", "sum", "nancumprod", "amin"].iter().enumerate() {
+        for rep in 0..(if thorough { 6 } else { 2 }) {
+            emit(op, "i64", &[4100], "none", "none", 2 * (rng.next() % 1000), out);
+            emit(op, if (i + rep) % 2 == 0 { "f64" } else { "f32" }, &[4100], "none", "none", 6 * (rng.next() % 1000) + [0, 3, 1, 2, 5][(i + rep) % 5], out);
+        }
+    }
+    let long_axis: Vec<(&str, &str, Vec<usize>, &str, &str)> = if thorough {
+        vec![("argmax", "i64", vec![4100], "0", "true"), ("cumsum", "f64", vec![4100], "-1", "none"), ("nanmin", "f64", vec![2, 4100], "1", "none"), ("argmin", "f32", vec![2, 4100], "-1", "none"),
+             ("count_nonzero", "u8", vec![4100], "0", "false"), ("max", "i64", vec![2, 4100], "1", "none"), ("nancumsum", "f64", vec![2, 4100], "1", "none"), ("prod", "i64", vec![4100, 2], "0", "none")]
+    } else { vec![("argmax", "i64", vec![4100], "0", "true"), ("cumsum", "f64", vec![4100], "-1", "none")] };
+    for (op, dt, s, ax, kd) in long_axis { emit(op, dt, &s, ax, kd, 6 * (rng.next() % 1000) + 3, out); }
+    // (e) random shapes of rank 1..6 with one longer axis; out-of-range axes
+    let n_rand = if thorough { 6000 } else { 600 };
+    for _ in 0..n_rand {
+        let nd = 1 + rng.below(6);
+        let mut s: Vec<usize> = (0..nd).map(|_| 1 + rng.below(if nd >= 5 { 2 } else { 3 })).collect();
+        if rng.below(3) != 0 { let p = rng.below(nd); s[p] = 4 + rng.below(14); }
+        let op = *rng.pick(&ops);
+        let cands: Vec<&str> = val_dts.iter().copied().filter(|d| applicable(op, d)).collect();
+        let ax = match rng.below(12) { 0 => "none".to_string(), 1 => (nd as isize + rng.below(2) as isize).to_string(), _ => { let a = rng.below(nd) as isize; (if rng.below(2) == 0 { a } else { a - nd as isize }).to_string() } };
+        let kd = if COUNT.contains(&op) { *rng.pick(&kd_all) } else { "none" };
+        emit(op, *rng.pick(&cands), &s, &ax, kd, rng.next() % 30000, out);
+    }
 }
 
 // ---------------------------------------------------------------- gen, part 2
@@ -777,6 +903,10 @@ impl<R: Val> Want<R> {
     fn show(&self) -> String { match self { Want::Int(i) => i.to_string(), Want::Is(v) => v.to_string(), Want::Nan => "NaN".into() } }
 }
 
+/// `ok shape:a,-0,b` -> `ok shape:a,0,b` (element tokens only)
+fn neg_zero_as_zero(t: &str) -> String {
+    match t.split_once(':') { Some((h, es)) if t.starts_with("ok ") => format!("{h}:{}", es.split(',').map(|x| if x == "-0" { "0" } else { x }).collect::<Vec<_>>().join(",")), _ => t.to_string() }
+}
 /// compare one real result against the lane map (of the model, or of the native reference on `ref` cases): shape, consistency,
 /// then per output position the lane oracle (`lane_op`, the same real 1-D operation, bit-exact) and the native oracle (`native`: per
 /// lane the expected values, one for a reduction, one per lane position for a scan; `None` = no native reference for this
@@ -784,7 +914,9 @@ impl<R: Val> Want<R> {
 fn judge<T: Val, R: Val>(vals: &[T], observed: &Result<Array<R>, ArrayError>, expected: &str, map: Option<&LaneMap>, source: &str,
     lane_op: &dyn Fn(&Array<T>) -> Result<Array<R>, ArrayError>, native: &dyn Fn(&[T]) -> Option<Vec<Want<R>>>) -> Verdict {
     let obs_text = show_out(observed);
-    let Some(map) = map else { return compare_default(obs_text, expected) };
+    // (no lane map: an error is expected, or - value cases - `expected` is the VALUE answer of the kernel model, in which `0.0` and
+    //  `-0.0` are one value: `0 * -3`)
+    let Some(map) = map else { return match compare_default(neg_zero_as_zero(&obs_text), expected) { Verdict::Match(_) => Verdict::Match(obs_text), v => v } };
     let (shape, outs, lanes) = (&map.shape, &map.outs, &map.lanes);
     // lane values and the 1-D operation on each distinct lane, once
     let mut lane_vals: Vec<Vec<T>> = Vec::with_capacity(lanes.len());
@@ -1020,7 +1152,46 @@ macro_rules! probe { ($a:ident, |$x:ident| $e:expr) => {{
 /// `big`: judge in place by the closed form of the native lane reference (giant cases); `shadow`: after the ordinary judgement
 /// run the in-place judge as well — it must accept what the ordinary path accepted (keeps the giant path honest on small cases)
 struct Case<'a> { op: &'a str, dt: &'a str, shape: Vec<usize>, axis: Option<isize>, kd: Option<bool>, vseed: u64, expected: &'a str, map: Option<LaneMap>, source: &'a str, probe: bool,
-    big: Option<Result<Strided, ()>>, shadow: Option<Strided> }
+    big: Option<Result<Strided, ()>>, shadow: Option<Strided>,
+    /// value cases: the elements are written out in the case line (`None` = NaN) and the expected text is the kernel model's VALUE answer
+    explicit: Option<Vec<Option<i128>>> }
+/// the elements of a case: written out (value cases) or drawn from the value class of the element type
+fn case_vals<T: Val>(c: &Case, n: usize) -> Vec<T> {
+    match &c.explicit {
+        Some(e) => e.iter().map(|x| match x { Some(i) => if T::FLOAT { T::of_f64(*i as f64) } else { T::of_int(*i) }, None => T::of_f64(f64::NAN) }).collect(),
+        None => gen_vals::<T>(c.dt, n, c.vseed, c.op),
+    }
+}
+thread_local! {
+    /// value cases answered by the kernel model / output values on which the native value oracle was compared with it / disagreements
+    static KV_CASES: Cell<usize> = Cell::new(0); static KV_VALUES: Cell<usize> = Cell::new(0); static KV_BROKEN: Cell<usize> = Cell::new(0);
+}
+/// `shape:v,v,…` (`NaN`) of a kernel-model answer
+fn parse_val_answer(expected: &str) -> Option<(Vec<usize>, Vec<Option<i128>>)> {
+    let body = expected.strip_prefix("ok ")?;
+    let (sh, es) = body.split_once(':')?;
+    let es: Vec<Option<i128>> = if es == "-" { vec![] } else { es.split(',').map(|x| if x == "NaN" { Some(None) } else { x.parse::<i128>().ok().map(Some) }).collect::<Option<Vec<_>>>()? };
+    Some((parse_usize_list(sh), es))
+}
+/// VALUE CASES, the chain kernel model -> native value oracle: on every output position on which the native oracle (the plain-Rust
+/// reference that alone judges the float / giant cases) has an opinion, it must give the value the kernel model (the Lean
+/// definitions the kernel theorems are about) gives.  Lane membership comes from the native lane reference.
+fn kernel_vs_native<T: Val, R: Val>(c: &Case, vals: &[T], native: &dyn Fn(&[T]) -> Option<Vec<Want<R>>>) -> Option<Verdict> {
+    if c.explicit.is_none() || c.probe { return None; }
+    KV_CASES.with(|k| k.set(k.get() + 1));
+    let (shape, model) = parse_val_answer(c.expected)?;
+    let map = match native_map(&c.shape, c.axis, c.kd, family(c.op)) { Some(Ok(m)) => m, _ => return None };
+    let bad = |d: String| { KV_BROKEN.with(|k| k.set(k.get() + 1)); Some(Verdict::Mismatch { observed: "n/a".into(), detail: format!("HARNESS: kernel model and native oracle: {d}") }) };
+    if map.shape != shape || map.outs.len() != model.len() { return bad(format!("the native lane reference gives shape {:?} with {} positions, the kernel model `{}`", map.shape, map.outs.len(), truncate(c.expected, 200))); }
+    let lane_nat: Vec<Option<Vec<Want<R>>>> = map.lanes.iter().map(|l| native(&l.iter().map(|&t| vals[t].clone()).collect::<Vec<T>>())).collect();
+    for (p, &(j, id)) in map.outs.iter().enumerate() {
+        let Some(w) = lane_nat[id].as_ref().and_then(|n| n.get(j)) else { continue };
+        let m: R = match model[p] { Some(i) => if R::FLOAT { R::of_f64(i as f64) } else { R::of_int(i) }, None => R::of_f64(f64::NAN) };
+        KV_VALUES.with(|k| k.set(k.get() + 1));
+        if model[p].is_none() && !R::FLOAT || !w.agrees(&m) { return bad(format!("output position {p}: the kernel model says {}, the native value oracle {}", m, w.show())); }
+    }
+    None
+}
 thread_local! { static SHADOW_RUNS: Cell<usize> = Cell::new(0); static BIG_RUNS: Cell<usize> = Cell::new(0); static BIG_SLOWEST: RefCell<(f64, String)> = RefCell::new((0.0, String::new())); }
 /// shadow mode: the in-place judge on an ordinary case that the ordinary judge accepted
 fn shadowed<T: Val, R: Val>(v: Verdict, c: &Case, vals: &[T], call: &dyn Fn() -> Result<Array<R>, ArrayError>,
@@ -1038,11 +1209,12 @@ fn shadowed<T: Val, R: Val>(v: Verdict, c: &Case, vals: &[T], call: &dyn Fn() ->
 
 fn run_any<T: Val>(c: &Case) -> Option<Verdict> {
     let n: usize = c.shape.iter().product();
-    let vals: Vec<T> = gen_vals::<T>(c.dt, n, c.vseed, c.op);
+    let vals: Vec<T> = case_vals::<T>(c, n);
     let a = Array::new(vals.clone(), c.shape.clone()).unwrap();
     let (axis, kd, op, expected) = (c.axis, c.kd, c.op, c.expected);
     macro_rules! cnt { ($m:ident, $tr:ident) => {{
         if c.probe { probe!(a, |x| $tr::$m(x, axis, kd)) }
+        if let Some(v) = kernel_vs_native::<T, usize>(c, &vals, &|lane| native_cnt(op, lane)) { return Some(v); }
         if let Some(st) = &c.big { return Some(run_big(a, &vals, st, expected, &|x| $tr::$m(x, axis, kd), &|x| $tr::$m(x, axis, kd), &|l: &Array<T>| $tr::$m(l, None, None), &|lane| native_cnt(op, lane))); }
         let (p1, p2, ch) = three!(a, T, |x| $tr::$m(x, axis, kd));
         let v = finish(p1, p2, ch, expected, &|r| judge(&vals, r, expected, c.map.as_ref(), c.source, &|l: &Array<T>| $tr::$m(l, None, None), &|lane| native_cnt(op, lane)));
@@ -1053,11 +1225,12 @@ fn run_any<T: Val>(c: &Case) -> Option<Verdict> {
 fn run_num<T: Val + Numeric>(c: &Case) -> Option<Verdict> {
     if !EXTREME.contains(&c.op) { return run_any::<T>(c); }
     let n: usize = c.shape.iter().product();
-    let vals: Vec<T> = gen_vals::<T>(c.dt, n, c.vseed, c.op);
+    let vals: Vec<T> = case_vals::<T>(c, n);
     let a = Array::new(vals.clone(), c.shape.clone()).unwrap();
     let (axis, op, expected) = (c.axis, c.op, c.expected);
     macro_rules! red { ($m:ident) => {{
         if c.probe { probe!(a, |x| ArrayExtrema::$m(x, axis)) }
+        if let Some(v) = kernel_vs_native::<T, T>(c, &vals, &|lane| native_val(op, lane)) { return Some(v); }
         if let Some(st) = &c.big { return Some(run_big(a, &vals, st, expected, &|x| ArrayExtrema::$m(x, axis), &|x| ArrayExtrema::$m(x, axis), &|l: &Array<T>| ArrayExtrema::$m(l, None), &|lane| native_val(op, lane))); }
         let (p1, p2, ch) = three!(a, T, |x| ArrayExtrema::$m(x, axis));
         let v = finish(p1, p2, ch, expected, &|r| judge(&vals, r, expected, c.map.as_ref(), c.source, &|l: &Array<T>| ArrayExtrema::$m(l, None), &|lane| native_val(op, lane)));
@@ -1068,11 +1241,12 @@ fn run_num<T: Val + Numeric>(c: &Case) -> Option<Verdict> {
 fn run_ops<T: Val + NumericOps>(c: &Case) -> Option<Verdict> {
     if !(FOLD.contains(&c.op) || SCAN.contains(&c.op)) { return run_num::<T>(c); }
     let n: usize = c.shape.iter().product();
-    let vals: Vec<T> = gen_vals::<T>(c.dt, n, c.vseed, c.op);
+    let vals: Vec<T> = case_vals::<T>(c, n);
     let a = Array::new(vals.clone(), c.shape.clone()).unwrap();
     let (axis, op, expected) = (c.axis, c.op, c.expected);
     macro_rules! red { ($m:ident) => {{
         if c.probe { probe!(a, |x| ArraySumProdDiff::$m(x, axis)) }
+        if let Some(v) = kernel_vs_native::<T, T>(c, &vals, &|lane| native_val(op, lane)) { return Some(v); }
         if let Some(st) = &c.big { return Some(run_big(a, &vals, st, expected, &|x| ArraySumProdDiff::$m(x, axis), &|x| ArraySumProdDiff::$m(x, axis), &|l: &Array<T>| ArraySumProdDiff::$m(l, None), &|lane| native_val(op, lane))); }
         let (p1, p2, ch) = three!(a, T, |x| ArraySumProdDiff::$m(x, axis));
         let v = finish(p1, p2, ch, expected, &|r| judge(&vals, r, expected, c.map.as_ref(), c.source, &|l: &Array<T>| ArraySumProdDiff::$m(l, None), &|lane| native_val(op, lane)));
@@ -1098,19 +1272,29 @@ fn dispatch(c: &Case) -> Option<Verdict> {
 }
 /// the shape of a tag array `i<shape>` without building its elements (giant shapes), other spellings through lib.rs
 fn shape_of(s: &str) -> Vec<usize> {
+    // (value cases write the array out, `shape:v,v,…` with `n` for NaN)
+    if let Some((sh, _)) = s.split_once(':') { return parse_usize_list(sh); }
     match s.strip_prefix('i') { Some(b) if !b.contains('+') => parse_usize_list(b), _ => parse_arr_raw(s).0 }
+}
+/// the written-out elements of a value case (`None` = NaN)
+fn explicit_of(s: &str) -> Option<Vec<Option<i128>>> {
+    let (_, es) = s.split_once(':')?;
+    if es == "-" { return Some(vec![]); }
+    es.split(',').map(|x| if x == "n" { Some(None) } else { x.parse::<i128>().ok().map(Some) }).collect()
 }
 /// cases with more elements than this are judged in place (`run_big`); all of them are `ref` cases
 const BIG_MIN: usize = 500_000;
-struct Parsed<'a> { dt: &'a str, shape: Vec<usize>, axis: Option<isize>, kd: Option<bool>, vseed: u64, by_ref: bool }
+struct Parsed<'a> { dt: &'a str, shape: Vec<usize>, axis: Option<isize>, kd: Option<bool>, vseed: u64, by_ref: bool, explicit: Option<Vec<Option<i128>>> }
 fn parse_case<'a>(op: &str, args: &[&'a str]) -> Option<Parsed<'a>> {
-    if args.len() != 5 && !(args.len() == 6 && args[5] == "ref") { return None; }
+    if args.len() != 5 && !(args.len() == 6 && (args[5] == "ref" || args[5] == "val")) { return None; }
+    let by_val = args.len() == 6 && args[5] == "val";
+    let explicit = if by_val { let e = explicit_of(args[1])?; if e.len() != shape_of(args[1]).iter().product::<usize>() { return None; } Some(e) } else { None };
     let shape = shape_of(args[1]);
     let axis: Option<isize> = parse_opt(args[2]);
     let kd: Option<bool> = match args[3] { "none" => None, "true" => Some(true), _ => Some(false) };
     let vseed: u64 = args[4].parse().ok()?;
     if !applicable(op, args[0]) { return None; }
-    Some(Parsed { dt: args[0], shape, axis, kd, vseed, by_ref: args.len() == 6 })
+    Some(Parsed { dt: args[0], shape, axis, kd, vseed, by_ref: args.len() == 6 && !by_val, explicit })
 }
 fn mism(observed: &str, detail: String) -> Option<Verdict> { Some(Verdict::Mismatch { observed: observed.to_string(), detail }) }
 
@@ -1118,20 +1302,26 @@ fn exec(op: &str, args: &[&str], expected: &str) -> Option<Verdict> {
     if op == "refstats" {
         let (v, u, b, aba) = (REF_VALIDATED.with(Cell::get), REF_USED.with(Cell::get), REF_BROKEN.with(Cell::get), ABA_RUNS.with(Cell::get));
         let (big, sh) = (BIG_RUNS.with(Cell::get), SHADOW_RUNS.with(Cell::get));
-        let text = format!("ok native lane reference: compared with the model on {v} cases of this run ({b} disagreements), used in place of the model on {u} cases, {big} of them giant (> {BIG_MIN} elements, judged in place; the in-place judge also ran in shadow mode on {sh} ordinary cases); A-B-A re-runs {aba}");
+        let (kc, kv, kb) = (KV_CASES.with(Cell::get), KV_VALUES.with(Cell::get), KV_BROKEN.with(Cell::get));
+        let text = format!("ok native lane reference: compared with the model on {v} cases of this run ({b} disagreements), used in place of the model on {u} cases, {big} of them giant (> {BIG_MIN} elements, judged in place; the in-place judge also ran in shadow mode on {sh} ordinary cases); A-B-A re-runs {aba}; kernel model (1-D arms, Lean): answered the VALUES of {kc} cases, the native value oracle was compared with it on {kv} output values ({kb} disagreements)");
         eprintln!("C08 {}", &text[3..]);
         BIG_SLOWEST.with(|b| { let b = b.borrow(); if b.0 > 0.0 { eprintln!("C08 slowest giant case: {:.2} s (`{}`); the rule is < 2 s on a quiet machine, the watchdog is 60 s", b.0, b.1); } });
         if expected != "ref" { return None; }
-        return if b > 0 || (u > 0 && v < 1000) || (big > 0 && sh < 1000) { mism(&text, "the native reference was used without (enough) validation against the model in the same run".into()) } else { Some(Verdict::Match(text)) };
+        return if b > 0 || kb > 0 || (u > 0 && v < 1000) || (big > 0 && sh < 1000) || (big > 0 && kv < 1000) { mism(&text, "a native reference / oracle was used without (enough) validation against the model in the same run".into()) } else { Some(Verdict::Match(text)) };
     }
     let pc = parse_case(op, args)?;
     let fam = family(op);
     let scan = fam == 'S';
     let giant = pc.by_ref && pc.shape.iter().product::<usize>() > BIG_MIN;
     // (giant cases: the lane map is never written out; the closed form is used below)
-    let native: Option<Result<Option<LaneMap>, ()>> = if giant { native_strided(&pc.shape, pc.axis, pc.kd, fam).map(|r| r.map(|_| None)) } else { native_map(&pc.shape, pc.axis, pc.kd, fam).map(|r| r.map(Some)) };
+    let native: Option<Result<Option<LaneMap>, ()>> = if pc.explicit.is_some() { None } else if giant { native_strided(&pc.shape, pc.axis, pc.kd, fam).map(|r| r.map(|_| None)) } else { native_map(&pc.shape, pc.axis, pc.kd, fam).map(|r| r.map(Some)) };
     // which lane map judges the result
-    let (map, source, exp_text): (Option<LaneMap>, &str, String) = if pc.by_ref {
+    let (map, source, exp_text): (Option<LaneMap>, &str, String) = if pc.explicit.is_some() {
+        // value case: the kernel model answers the values; the real answer is compared with that text (and `kernel_vs_native` inside
+        // `dispatch` compares the native value oracle with it)
+        if expected == "ref" || expected == "bad-op" { return None; }
+        (None, "the kernel model", expected.to_string())
+    } else if pc.by_ref {
         if expected != "ref" { return None; }
         REF_USED.with(|c| c.set(c.get() + 1));
         match native {
@@ -1157,7 +1347,7 @@ fn exec(op: &str, args: &[&str], expected: &str) -> Option<Verdict> {
     let big = if pc.by_ref && n_all > BIG_MIN { BIG_RUNS.with(|c| c.set(c.get() + 1)); native_strided(&pc.shape, pc.axis, pc.kd, fam) } else { None };
     let shadow = if big.is_none() && map.is_some() && n_all <= 20000 && CASE_NO.with(|c| { c.set(c.get() + 1); c.get() % 4 == 0 }) { native_strided(&pc.shape, pc.axis, pc.kd, fam).and_then(Result::ok) } else { None };
     let map = if big.is_some() { None } else { map };
-    let c = Case { op, dt: pc.dt, shape: pc.shape, axis: pc.axis, kd: pc.kd, vseed: pc.vseed, expected: &exp_text, map, source, probe: false, big, shadow };
+    let c = Case { op, dt: pc.dt, shape: pc.shape, axis: pc.axis, kd: pc.kd, vseed: pc.vseed, expected: &exp_text, map, source, probe: false, big, shadow, explicit: pc.explicit };
     LAST_PLAIN.with(|l| *l.borrow_mut() = None);
     let t_case = std::time::Instant::now();
     let v = dispatch(&c)?;
@@ -1173,7 +1363,7 @@ fn exec(op: &str, args: &[&str], expected: &str) -> Option<Verdict> {
     if let (Verdict::Match(_), Some((pop, pargs, ptext))) = (&verdict, &prev) {
         let pa: Vec<&str> = pargs.iter().map(String::as_str).collect();
         if let Some(pp) = parse_case(pop, &pa) {
-            let pcase = Case { op: pop, dt: pp.dt, shape: pp.shape, axis: pp.axis, kd: pp.kd, vseed: pp.vseed, expected: "", map: None, source: "", probe: true, big: None, shadow: None };
+            let pcase = Case { op: pop, dt: pp.dt, shape: pp.shape, axis: pp.axis, kd: pp.kd, vseed: pp.vseed, expected: "", map: None, source: "", probe: true, big: None, shadow: None, explicit: pp.explicit };
             ABA_RUNS.with(|c| c.set(c.get() + 1));
             if let Some(Verdict::Match(again)) = dispatch(&pcase) {
                 if &again != ptext {
@@ -1202,4 +1392,4 @@ fn main() {
         rule: RULE });
 }
 
-const RULE: &str = "17 operations (10 reductions, count_nonzero/argmax/argmin x keepdims none/true/false, 4 scans) x every shape rank<=4 len<=3 (thorough: + rank 5 len<=2) x every axis in both spellings and `none` x i64 / f64 values (f64 with NaN, +-inf, +-0, subnormal, huge), out-of-range axes, seeded random rank 5-6; robustness streams: 14 further element types / value classes (i64 and u64/usize/isize beyond 2^53 and next to the ends of the type, i8/i16/i32/u8/u16/u32 next to their ends, f64 subnormals and NaN first/last/random, f32, bool, String) on every shape rank<=3 and every axis; every zero-length shape x every axis incl. out-of-range; big_shapes (axis lengths 7-17 in every position, > 256 / 1024 / 4096 elements); lanes of 4100 elements with repeated extremes; random shapes with one axis of 7-17. Oracles: per output position the model names the lane; (a) the same real operation with axis=None on that lane must give the bit-identical value, (b) a plain-Rust reference over the lane values (exact integer sum/product/running totals, max/min with NaN rules, count of non-zeros, FIRST position of the extreme) must agree; every case is run twice on the plain receiver and once on Ok(array) through the Result-receiver impl, all three must answer alike. PART 2: hidden state - same-rank shapes that collide under weak keys (polynomial hashes with multipliers 31/33/37/131/257/256 AND equal element count: [c+k,c*m] vs [c,(c+k)*m], also with a leading 3 / trailing 2; collision_shape_pairs(); permuted axis lengths; axis lengths equal modulo 2^8 and 2^16) executed back to back in both orders with the same axis through all three families; the same shape with the values reversed / one element moved by one or one ulp between two runs of the original; a refused axis directly followed by a valid call; A-B-A: after every case the previous case is run again and must answer exactly as before. Exact lengths: every lane length 1..300 in trailing ([2,d], both axes) and inner ([3,d,2]) position. Ranks 7 and 8. NATIVE LANE REFERENCE (plain coordinate arithmetic for result shape and lane membership) - compared with the model's answer on EVERY case the model answers (non-empty arrays; the closing refstats line reports the count and fails when the reference is used without >= 1000 validations in the same run) and used in place of the quadratic model on the cases marked `ref`: more than 8192 lanes ([9000,3], [3,9000], [100,2,90], [8193,2], [2,8193], [91,2,91]; boundary [8192,2]), huge_shapes() (16385..90000 elements, [70000], [2,70000], [70000,2], [2,65539]; thorough [140001], [7,131,151], [20000,2], rank 6) on every axis with at most ~20000 lanes, and the lengths 121..300 of [3,d,2] - value oracles (a) and (b) unchanged. PART 3: giant arrays (`ref` cases above 500 000 elements, judged in place through the closed form of the native lane reference whose written-out form is what is compared with the model on every ordinary case; the in-place judge also runs in shadow mode on every fourth ordinary case): 2^20 elements exactly / 8 below / up to 2.1 million, ranks 1-4 (thorough 5), first / middle / last axis in both spellings and the flattened form, extents that are / are not multiples of 64, near-distinct scrambled i64 / f64 values (every lane has its own sum, extreme, position, sign pattern, zero count), quick 30 cases over all 17 operations, thorough ~140 incl. ~1000-2000 lanes; exact native oracle for float sums / products of integer-valued lanes below 2^53; value relations: all-zero arrays mixing 0.0 / -0.0, constant arrays (0, -0.0, 0.1, NaN, inf, MAX, i64::MIN, 2^53+1 ...), values == or one ulp apart, on every operation x axis of eight shapes and on 4100-element lanes; element layout: count family on Tuple3<i32,i32,i32> (12 bytes), Tuple3<u8,u8,u8> (3 bytes), Tuple2<String,i32> (32 bytes) and strings with a common stem of 32..1024 bytes; axis arguments whose narrowed / wrapped image is a valid axis (a + 2^8 / 2^16 / 2^31 / 2^32, isize::MIN / MAX). non-trivial = rank>=2, axis given, lane longer than 1";
+const RULE: &str = "17 operations (10 reductions, count_nonzero/argmax/argmin x keepdims none/true/false, 4 scans) x every shape rank<=4 len<=3 (thorough: + rank 5 len<=2) x every axis in both spellings and `none` x i64 / f64 values (f64 with NaN, +-inf, +-0, subnormal, huge), out-of-range axes, seeded random rank 5-6; robustness streams: 14 further element types / value classes (i64 and u64/usize/isize beyond 2^53 and next to the ends of the type, i8/i16/i32/u8/u16/u32 next to their ends, f64 subnormals and NaN first/last/random, f32, bool, String) on every shape rank<=3 and every axis; every zero-length shape x every axis incl. out-of-range; big_shapes (axis lengths 7-17 in every position, > 256 / 1024 / 4096 elements); lanes of 4100 elements with repeated extremes; random shapes with one axis of 7-17. Oracles: per output position the model names the lane; (a) the same real operation with axis=None on that lane must give the bit-identical value, (b) a plain-Rust reference over the lane values (exact integer sum/product/running totals, max/min with NaN rules, count of non-zeros, FIRST position of the extreme) must agree; every case is run twice on the plain receiver and once on Ok(array) through the Result-receiver impl, all three must answer alike. PART 2: hidden state - same-rank shapes that collide under weak keys (polynomial hashes with multipliers 31/33/37/131/257/256 AND equal element count: [c+k,c*m] vs [c,(c+k)*m], also with a leading 3 / trailing 2; collision_shape_pairs(); permuted axis lengths; axis lengths equal modulo 2^8 and 2^16) executed back to back in both orders with the same axis through all three families; the same shape with the values reversed / one element moved by one or one ulp between two runs of the original; a refused axis directly followed by a valid call; A-B-A: after every case the previous case is run again and must answer exactly as before. Exact lengths: every lane length 1..300 in trailing ([2,d], both axes) and inner ([3,d,2]) position. Ranks 7 and 8. NATIVE LANE REFERENCE (plain coordinate arithmetic for result shape and lane membership) - compared with the model's answer on EVERY case the model answers (non-empty arrays; the closing refstats line reports the count and fails when the reference is used without >= 1000 validations in the same run) and used in place of the quadratic model on the cases marked `ref`: more than 8192 lanes ([9000,3], [3,9000], [100,2,90], [8193,2], [2,8193], [91,2,91]; boundary [8192,2]), huge_shapes() (16385..90000 elements, [70000], [2,70000], [70000,2], [2,65539]; thorough [140001], [7,131,151], [20000,2], rank 6) on every axis with at most ~20000 lanes, and the lengths 121..300 of [3,d,2] - value oracles (a) and (b) unchanged. PART 3: giant arrays (`ref` cases above 500 000 elements, judged in place through the closed form of the native lane reference whose written-out form is what is compared with the model on every ordinary case; the in-place judge also runs in shadow mode on every fourth ordinary case): 2^20 elements exactly / 8 below / up to 2.1 million, ranks 1-4 (thorough 5), first / middle / last axis in both spellings and the flattened form, extents that are / are not multiples of 64, near-distinct scrambled i64 / f64 values (every lane has its own sum, extreme, position, sign pattern, zero count), quick 30 cases over all 17 operations, thorough ~140 incl. ~1000-2000 lanes; exact native oracle for float sums / products of integer-valued lanes below 2^53; value relations: all-zero arrays mixing 0.0 / -0.0, constant arrays (0, -0.0, 0.1, NaN, inf, MAX, i64::MIN, 2^53+1 ...), values == or one ulp apart, on every operation x axis of eight shapes and on 4100-element lanes; element layout: count family on Tuple3<i32,i32,i32> (12 bytes), Tuple3<u8,u8,u8> (3 bytes), Tuple2<String,i32> (32 bytes) and strings with a common stem of 32..1024 bytes; axis arguments whose narrowed / wrapped image is a valid axis (a + 2^8 / 2^16 / 2^31 / 2^32, isize::MIN / MAX). VALUE CASES (`val`): the array is written out and the KERNEL MODEL (ArrModel/C08Kernels.lean: the 1-D arms of the seventeen operations, proved in Props/C08.lean; Elem.int for i64/i32/i16/i8/u64/usize/isize/u8/u16/u32 with lane sums / products inside the type, Elem.nanInt for f64/f32 on small integers with NaN nowhere / first / last / random / everywhere) answers the VALUES, compared with the crate's answer directly: every lane of length 0..3 over {NaN,-1,0,2}, every shape rank<=3 len<=3 and rank 4 len<=2 x every axis spelling x every operation x keepdims, every zero-length shape x every axis incl. out of range, big_shapes, 4100-element lanes with repeated extremes, random ranks 1-6; the native value oracle is compared with the kernel model on every output value of these cases (refstats reports the count and fails on a disagreement, or when giant cases ran with fewer than 1000 such comparisons). non-trivial = rank>=2, axis given, lane longer than 1";
